@@ -50,6 +50,61 @@ def fstring_parts(js: ast.JoinedStr):
     return out
 
 
+def template_parts(e: ast.AST):
+    """A written string as ordered parts.  Understands f-strings, string constants, `+`
+    concatenation and `<sep>.join(<f-string> for v in <iter>)` (-> ('repeat', sep, parts, target, iter))."""
+    if isinstance(e, ast.JoinedStr):
+        return fstring_parts(e)
+    if isinstance(e, ast.Constant) and isinstance(e.value, str):
+        return [("lit", e.value)]
+    if isinstance(e, ast.BinOp) and isinstance(e.op, ast.Add):
+        return template_parts(e.left) + template_parts(e.right)
+    if isinstance(e, ast.Call) and isinstance(e.func, ast.Attribute) and e.func.attr == "join" and isinstance(e.func.value, ast.Constant) \
+            and isinstance(e.func.value.value, str) and len(e.args) == 1 and isinstance(e.args[0], (ast.GeneratorExp, ast.ListComp)) \
+            and len(e.args[0].generators) == 1 and not e.args[0].generators[0].ifs:
+        g = e.args[0]
+        return [("repeat", e.func.value.value, template_parts(g.elt), g.generators[0].target, g.generators[0].iter)]
+    if isinstance(e, ast.Call) and call_name(e) == "str" and len(e.args) == 1:
+        return [("field", e.args[0], None)]
+    raise AnalysisError(f"cannot read the written text `{short(e, 60)}` as a template")
+
+
+def columns(parts):
+    """[(kind, payload, separated_from_previous)] - a repeat contributes two representative copies of its fields"""
+    cols = []
+    state = {"ws": True}
+
+    def lit(txt):
+        i = 0
+        while i < len(txt):
+            if txt[i].isspace():
+                state["ws"] = True
+                i += 1
+                continue
+            j = i
+            while j < len(txt) and not txt[j].isspace():
+                j += 1
+            cols.append(("const", txt[i:j], state["ws"]))
+            state["ws"] = False
+            i = j
+
+    def walk(ps, rep=None):
+        for p in ps:
+            if p[0] == "lit":
+                lit(p[1])
+            elif p[0] == "field":
+                cols.append(("field", (p[1], p[2], rep), state["ws"]))
+                state["ws"] = False
+            elif p[0] == "repeat":
+                _, sep, sub, tgt, it = p
+                for k in range(2):
+                    walk(sub, rep=(tgt, it, k))
+                    if k == 0:
+                        lit(sep)
+    walk(parts)
+    return cols
+
+
 def run(chk):
     r1_units(chk)
     r2_records(chk)
@@ -121,35 +176,137 @@ def r1_units(chk):
     scale_mult = isinstance(aug[0].op, ast.Mult)
     scale_div = isinstance(aug[0].op, ast.Div)
     chk.require(scale_mult or scale_div, "CartesianGeometry.scale neither multiplies nor divides")
-    # use sites
-    sites = 0
+    want_exp = +1 if table == "A-per-unit" else -1
+    n_sites = 0
     for f in prog.functions():
-        if not f.module.name.startswith("molli.chem") and not f.module.name.startswith("molli.parsing"):
+        if not (f.module.name.startswith("molli.chem") or f.module.name.startswith("molli.parsing")):
             continue
-        for c in walk_no_nested(f.node):
-            if not (isinstance(c, ast.Call) and isinstance(c.func, ast.Attribute) and c.func.attr == "scale" and c.args):
+        sites = unit_sites(f.node, scale_mult)
+        if not sites:
+            continue
+        chk.analysed(f)
+        for k, st in enumerate(sites):
+            n_sites += 1
+            key = f"{f.key}:unit-scaling" + ("" if k == 0 else f":{k}")
+            good = st["exp"] == want_exp
+            chk.decide(good, "C08.R1", key, f.where(st["node"]),
+                       f"coordinates are {'multiplied' if st['exp'] > 0 else 'divided'} by a {table} factor -> Angstrom",
+                       f"`{short(st['node'], 60)}` {'multiplies' if st['exp'] > 0 else 'divides'} the coordinates by the table value, but the table is "
+                       f"{table}: a file in Bohr comes out {'3.57x too long' if st['exp'] > 0 else '3.57x too short'} instead of in Angstrom")
+            g = _enclosing_if(f.node, st["node"])
+            if g is not None:
+                t = g.test
+                okg = isinstance(t, ast.Compare) and isinstance(t.ops[0], ast.NotEq) and "DistanceUnit.Angstrom" in (norm(t.left), norm(t.comparators[0])) \
+                    and (("source_units" in names_in(t)) or bool(names_in(t) & st["unit_names"]))
+                chk.decide(okg, "C08.R1", f"{f.key}:unit-scaling-guard" + ("" if k == 0 else f":{k}"), f.where(g), "scaling skipped only when the source unit is Angstrom",
+                           f"the unit conversion is conditioned on `{norm(g.test)}`")
+        if contains_yield(f.node):
+            _converted_coordinates_reach_product(chk, f, sites)
+    chk.require(n_sites >= 1, "no unit-scaling site found anywhere")
+
+
+def unit_sites(fn, scale_mult=True):
+    """Every place in fn where a DistanceUnit value meets coordinates.  exp = +1: the coordinates end up
+    multiplied by the table value, -1: divided by it."""
+    asg = assignments(fn)
+    unit_names = {n for n, vals in asg.items() for v in vals if isinstance(v, ast.AST) and isinstance(v, ast.Subscript) and norm(v.value) == "DistanceUnit"}
+
+    def unit_values(e):
+        out = []
+        for a in ast.walk(e):
+            if isinstance(a, ast.Attribute) and a.attr == "value":
+                b = a.value
+                if (isinstance(b, ast.Subscript) and norm(b.value) == "DistanceUnit") or (isinstance(b, ast.Name) and b.id in unit_names):
+                    out.append(a)
+        return out
+
+    # locals that hold a factor derived from the unit value: factor = 1.0 / unit.value
+    factor_names = {}
+    for n, vals in asg.items():
+        for v in vals:
+            if isinstance(v, ast.AST) and not isinstance(v, ast.Subscript):
+                uv = unit_values(v)
+                if uv and isinstance(v, (ast.BinOp, ast.Attribute, ast.Call)) and not any(isinstance(x, ast.Name) and x.id != n and x.id not in unit_names and x.id not in ("float", "np")
+                                                                                           for x in ast.walk(v) if isinstance(x, ast.Name)):
+                    factor_names[n] = +1 if _position(v, uv[0]) == "num" else -1
+    sites = []
+
+    def exp_of(e):
+        uv = unit_values(e)
+        if uv:
+            return +1 if _position(e, uv[0]) == "num" else -1
+        for x in ast.walk(e):
+            if isinstance(x, ast.Name) and x.id in factor_names:
+                return factor_names[x.id] * (+1 if _position(e, x) == "num" else -1)
+        return None
+
+    for c in walk_no_nested(fn):
+        if isinstance(c, ast.Call) and isinstance(c.func, ast.Attribute) and c.func.attr == "scale" and c.args:
+            e = exp_of(c.args[0])
+            if e is not None:
+                sites.append(dict(node=c, exp=e if scale_mult else -e, target=norm(c.func.value), kind="scale", unit_names=unit_names))
+        elif isinstance(c, ast.AugAssign) and isinstance(c.op, (ast.Mult, ast.Div)):
+            e = exp_of(c.value)
+            if e is not None:
+                sites.append(dict(node=c, exp=e if isinstance(c.op, ast.Mult) else -e, target=norm(c.target), kind="aug", unit_names=unit_names))
+        elif isinstance(c, ast.Assign) and isinstance(c.value, ast.BinOp) and isinstance(c.value.op, (ast.Mult, ast.Div)) and isinstance(c.targets[0], (ast.Name, ast.Attribute, ast.Subscript)):
+            if isinstance(c.targets[0], ast.Name) and c.targets[0].id in factor_names:
                 continue
-            arg = c.args[0]
-            uses = [a for a in ast.walk(arg) if isinstance(a, ast.Attribute) and a.attr == "value" and "DistanceUnit" in norm(a.value)]
-            if not uses:
-                continue
-            sites += 1
-            chk.analysed(f)
-            pos = _position(arg, uses[0])
-            # effective operation on the coordinates: multiply by value (num) or by 1/value (den)
-            multiplies_by_value = (pos == "num") == scale_mult
-            good = multiplies_by_value == (table == "A-per-unit")
-            key = f"{f.key}:unit-scaling"
-            chk.decide(good, "C08.R1", key, f.where(c),
-                       f"coordinates are {'multiplied' if multiplies_by_value else 'divided'} by a {table} factor -> Angstrom",
-                       f"`{short(c, 60)}` {'multiplies' if multiplies_by_value else 'divides'} the coordinates by the table value, but the table is "
-                       f"{table}: a file in Bohr comes out {'3.57x too long' if multiplies_by_value else '3.57x too short'} instead of in Angstrom")
-            # the conversion must be skipped only for Angstrom
-            g = _enclosing_if(f.node, c)
-            okg = g is not None and "DistanceUnit.Angstrom" in norm(g.test) and "source_units" in names_in(g.test) and isinstance(g.test, ast.Compare) and isinstance(g.test.ops[0], ast.NotEq)
-            chk.decide(okg or g is None, "C08.R1", f"{f.key}:unit-scaling-guard", f.where(c), "scaling skipped only when the source unit is Angstrom",
-                       f"the unit conversion is conditioned on `{norm(g.test) if g else ''}`")
-    chk.require(sites >= 2, f"only {sites} unit-scaling site(s) found (expected the xyz and the mol2 reader)")
+            e = exp_of(c.value)
+            if e is not None:
+                sites.append(dict(node=c, exp=e, target=norm(c.targets[0]), kind="expr", unit_names=unit_names))
+    return sites
+
+
+def _converted_coordinates_reach_product(chk, f, sites):
+    """In a yield_from_* generator: every raw coordinate stored into the product is converted before the yield."""
+    from ..cfg import CFG
+
+    ys = [s for s in walk_no_nested(f.node) if isinstance(s, ast.Expr) and contains_yield(s)]
+    if len(ys) != 1 or not isinstance(ys[0].value.value, ast.Name):
+        raise AnalysisError(f"{f.key}: expected a single `yield <name>`")
+    prod = ys[0].value.value.id
+    cfg = CFG(f.node)
+    asg = assignments(f.node)
+    converted_locals = {s["target"].split("[")[0] for s in sites if s["kind"] in ("aug", "expr") and not s["target"].startswith(prod + ".")}
+    on_product = [s for s in sites if s["target"] == prod or s["target"].startswith(prod + ".")]
+    conv_nodes = set()
+    for n in cfg.nodes:
+        if n.kind == "stmt" and any(any(x is s["node"] for x in ast.walk(n.ast)) for s in on_product):
+            conv_nodes.add(n.id)
+        if n.kind == "test" and any(any(x is s["node"] for b in n.ast.body for x in ast.walk(b)) for s in on_product):
+            conv_nodes.add(n.id)  # the guard `unit != Angstrom` is the conversion point
+    stores = []
+    for n in cfg.nodes:
+        if n.kind != "stmt":
+            continue
+        a = n.ast
+        if isinstance(a, ast.Assign):
+            for t in a.targets:
+                tt = norm(t)
+                if tt == f"{prod}.coords" or tt.startswith(f"{prod}.coords[") or tt.startswith(f"{prod}._coords"):
+                    stores.append((n, a.value))
+            if isinstance(a.value, ast.Call) and call_name(a.value) == "cls" and norm(a.targets[0]) == prod:
+                v = [k.value for k in a.value.keywords if k.arg == "coords"]
+                if v:
+                    stores.append((n, v[0]))
+    chk.require(stores, f"{f.key}: no coordinate store into the product found")
+    ynodes = {n.id for n in cfg.nodes if n.kind == "stmt" and n.ast is ys[0]}
+    bad = None
+    for n, v in stores:
+        if names_in(v) & converted_locals:
+            continue  # the value itself was converted beforehand
+        p = cfg.path(cfg.succs(n.id, {"next", "true", "false", "back"}), ynodes, avoid=conv_nodes)
+        if p is not None:
+            bad = (n, v)
+            break
+    key = f"{f.key}:every-stored-coordinate-is-converted"
+    if bad:
+        chk.fail("C08.R1", key, f.where(bad[0].ast),
+                 f"`{short(bad[0].ast, 60)}` stores coordinates as read from the file and no unit conversion of `{prod}` follows on the way to the yield: "
+                 "with source_units other than Angstrom the molecule keeps the raw numbers")
+    else:
+        chk.ok("C08.R1", key, f.where(), f"{len(stores)} coordinate store(s) into `{prod}`, each converted before the yield")
 
 
 def _position(expr, target):
@@ -186,6 +343,27 @@ def _enclosing_if(fn, node):
 
 
 # ---------------------------------------------------------------------------
+def _loop_binding(loop):
+    """How the atom loop pairs atoms and coordinate rows.
+    -> dict(atom=<expr text of the atom>, row=<expr text of the row>, aligned=bool)"""
+    it, tg = loop.iter, loop.target
+    if isinstance(it, ast.Call) and call_name(it) == "range" and isinstance(tg, ast.Name):
+        i = tg.id
+        return dict(atom=f"self.atoms[{i}]", row=f"self.coords[{i}]", aligned=norm(it.args[-1]) in ("self.n_atoms", "len(self.atoms)"), idx=i)
+    if isinstance(it, ast.Call) and call_name(it) == "enumerate" and isinstance(tg, ast.Tuple) and len(tg.elts) == 2:
+        i, a = norm(tg.elts[0]), norm(tg.elts[1])
+        if norm(it.args[0]) == "self.atoms":
+            return dict(atom=a, row=f"self.coords[{i}]", aligned=True, idx=i)
+        if norm(it.args[0]) == "self.coords":
+            return dict(atom=f"self.atoms[{i}]", row=a, aligned=True, idx=i)
+    if isinstance(it, ast.Call) and call_name(it) == "zip" and isinstance(tg, ast.Tuple) and len(tg.elts) == len(it.args) == 2:
+        srcs = [norm(x) for x in it.args]
+        names = [norm(x) for x in tg.elts]
+        if sorted(srcs) == ["self.atoms", "self.coords"]:
+            return dict(atom=names[srcs.index("self.atoms")], row=names[srcs.index("self.coords")], aligned=True, idx=None)
+    raise AnalysisError(f"atom loop `for {norm(tg)} in {norm(it)}` - unknown idiom")
+
+
 def r2_records(chk):
     prog = chk.prog
     dx = prog.func(f"{GEO}:CartesianGeometry.dump_xyz")
@@ -193,54 +371,73 @@ def r2_records(chk):
     yx = prog.func(f"{GEO}:CartesianGeometry.yield_from_xyz")
     chk.analysed(dx, rx, yx)
     asg = assignments(dx.node)
-    writes = [c for c in walk_no_nested(dx.node) if isinstance(c, ast.Call) and isinstance(c.func, ast.Attribute) and c.func.attr == "write"
-              and c.args and isinstance(c.args[0], ast.JoinedStr)]
+    writes = [c for c in walk_no_nested(dx.node) if isinstance(c, ast.Call) and isinstance(c.func, ast.Attribute) and c.func.attr == "write" and c.args]
     chk.require(len(writes) == 2, "dump_xyz: expected a header write and an atom-line write")
     loops = [s for s in walk_no_nested(dx.node) if isinstance(s, ast.For)]
     chk.require(len(loops) == 1, "dump_xyz: atom loop not found")
     line_w = [w for w in writes if any(x is w for x in ast.walk(loops[0]))]
     head_w = [w for w in writes if w not in line_w]
     chk.require(len(line_w) == 1 and len(head_w) == 1, "dump_xyz: writes not separable into header / atom line")
+    bind = _loop_binding(loops[0])
     # --- atom line columns
-    parts = fstring_parts(line_w[0].args[0])
-    fields = [p for p in parts if p[0] == "field"]
-    chk.require(len(fields) == 4, f"dump_xyz atom line has {len(fields)} fields")
-    # separators
-    seps_ok = True
-    for i, p in enumerate(parts[:-1]):
-        if p[0] == "field" and parts[i + 1][0] == "field":
-            seps_ok = False
-        if p[0] == "lit" and 0 < i < len(parts) - 1 and not (p[1] and p[1].isspace()):
-            seps_ok = False
-    chk.decide(seps_ok and parts[-1][0] == "lit" and parts[-1][1].endswith("\n"), "C08.R2", f"{dx.key}:separators", dx.where(line_w[0]),
+    cols = columns(template_parts(line_w[0].args[0]))
+    unsep = [i for i, c in enumerate(cols) if not c[2]]
+    parts = template_parts(line_w[0].args[0])
+    ends_nl = parts[-1][0] == "lit" and parts[-1][1].endswith("\n")
+    chk.decide(not unsep and ends_nl, "C08.R2", f"{dx.key}:separators", dx.where(line_w[0]),
                "fields separated by literal blanks, line ends with newline",
-               "two fields of the atom line are not separated by literal whitespace (or the newline is missing): wide values fuse and the reader's split() sees 3 tokens")
-    idx = norm(loops[0].target)
+               "two fields of the atom line are not separated by literal whitespace (or the newline is missing): wide values fuse and the reader's split() sees fewer tokens")
+    # meaning of each column
+    row_names = {}
+    for nm, vals in asg.items():
+        for v in vals:
+            if isinstance(v, tuple) and v[0] == "unpack" and norm(v[1]) == bind["row"]:
+                row_names[nm] = "xyz"[v[2]] if v[2] < 3 else "?"
     col = []
-    for _, e, spec in fields:
-        p = provenance(dx.node, e, dx.params(), asg)
-        if any(t.endswith("symbol") for t in p):
-            col.append("symbol")
-        elif isinstance(e, ast.Name):
-            vals = asg.get(e.id, [])
-            tag = None
-            for v in vals:
-                if isinstance(v, tuple) and v[0] == "unpack" and "coords" in norm(v[1]) and idx in names_in(v[1]):
-                    tag = "xyz"[v[2]] if v[2] < 3 else "?"
-            col.append(tag or "?")
+    rep_seen = 0
+    for kind, payload, _ in cols:
+        if kind == "const":
+            col.append("const:" + payload)
+            continue
+        e, spec, rep = payload
+        if rep is not None:
+            tgt, it, k = rep
+            if norm(it) == bind["row"] and norm(e) == norm(tgt):
+                if k == 0:
+                    col += ["x", "y", "z"]  # iterating a coordinate row yields its components in order
+                continue
+            col.append("?")
+            continue
+        pv = provenance(dx.node, e, dx.params(), asg)
+        se = norm(e)
+        if any(t.endswith("symbol") for t in pv) or se.endswith(".symbol"):
+            # which atom does the symbol belong to?
+            src = se
+            if isinstance(e, ast.Name):
+                vs = [v for v in asg.get(e.id, []) if isinstance(v, ast.AST)]
+                src = norm(vs[0]) if len(vs) == 1 else "?"
+            col.append("symbol" if src.startswith(bind["atom"] + ".") else "symbol-of-other-atom")
+        elif isinstance(e, ast.Name) and e.id in row_names:
+            col.append(row_names[e.id])
+        elif isinstance(e, ast.Subscript) and norm(e.value) == bind["row"] and isinstance(e.slice, ast.Constant) and e.slice.value in (0, 1, 2):
+            col.append("xyz"[e.slice.value])
         else:
             col.append("?")
-    chk.decide(col == ["symbol", "x", "y", "z"], "C08.R2", f"{dx.key}:columns", dx.where(line_w[0]), "symbol x y z (x,y,z = coords[i])",
-               f"the xyz atom line writes columns {col}; the reader takes (symbol, x, y, z)")
-    sym = [s for s in walk_no_nested(loops[0]) if isinstance(s, ast.Assign) and "symbol" in norm(s.value)]
-    chk.decide(bool(sym) and f"self.atoms[{idx}]" in norm(sym[0].value), "C08.R2", f"{dx.key}:symbol-of-same-atom", dx.where(),
-               "symbol and coordinates are taken for the same index", "the element symbol is not taken from atom i while the coordinates are row i")
+    chk.decide(col == ["symbol", "x", "y", "z"] and bind["aligned"], "C08.R2", f"{dx.key}:columns", dx.where(line_w[0]),
+               f"symbol x y z of the same atom ({bind['atom']} / {bind['row']})",
+               f"the xyz atom line writes columns {col} (atom {bind['atom']}, row {bind['row']}); the reader takes (symbol, x, y, z) of one atom")
     # --- header
-    hp = [p for p in fstring_parts(head_w[0].args[0])]
+    hp = template_parts(head_w[0].args[0])
     hf = [norm(p[1]) for p in hp if p[0] == "field"]
     lits = [p[1] for p in hp if p[0] == "lit"]
     chk.decide(hf[:1] == ["self.n_atoms"] and len(hf) == 2 and lits == ["\n", "\n"], "C08.R2", f"{dx.key}:header", dx.where(head_w[0]),
                "'<n_atoms>\\n<comment>\\n'", f"xyz header is written as fields {hf} with separators {lits!r}; the reader expects the count on line 1 and a comment on line 2")
+    # --- the parser sees every line of the stream (the format is positional by line: the comment line may be blank)
+    lr = calls_named(rx.node, {"LineReader"})
+    chk.require(len(lr) == 1, "read_xyz: LineReader construction not found")
+    chk.decide(len(lr[0].args) >= 1 and norm(lr[0].args[0]) == rx.params()[0] and len(lr[0].args) == 1 and not lr[0].keywords, "C08.R2", f"{rx.key}:reads-every-line", rx.where(lr[0]),
+               "LineReader(input): no line is filtered or rewritten before parsing",
+               f"read_xyz wraps its input as `{short(lr[0], 50)}`: lines can be dropped or altered before the positional parse (a blank comment line shifts the record by one line)")
     # --- reader
     un = [s for s in walk_no_nested(rx.node) if isinstance(s, ast.Assign) and isinstance(s.targets[0], ast.Tuple) and has_call(s.value, {".split"})]
     chk.require(len(un) == 1, "read_xyz: split() unpack not found")
